@@ -168,6 +168,7 @@ fn new_member(h: &mut Hist, p: &Profile, nested_pct: u32) -> (Member, Cid) {
                 always_ready: false,
                 resumable: false,
                 wake_on_drop: w(|w| w.chance(p.drop_wake_pct)),
+                hint_mode: w(|w| [0u8, 1, 2][w.below(3)]),
             })
             .collect();
         let mut b = Builder { scripts: VecDeque::from(scripts) };
@@ -185,6 +186,7 @@ fn new_member(h: &mut Hist, p: &Profile, nested_pct: u32) -> (Member, Cid) {
             let mut c = Child::leaf(if streams { Kind::LeafStr } else { Kind::LeafFut }, script);
             c.parent = Some((0, idx));
             c.wake_on_drop = w.chance(p.drop_wake_pct);
+            c.hint_mode = [0u8, 1, 2][w.below(3)];
             if c.never {
                 w.st.never_children += 1;
             }
